@@ -71,7 +71,7 @@ VARIABLES cfg,
           done,      \* set of boundary ids completed (mutation applied AND file rewritten if enabled)
           mem,       \* in-memory table: [cols |-> sequence of column names, meta |-> set of header keywords]
           disk,      \* the output file: [present |-> FALSE, ...] or a table of the same shape
-          pending,   \* "" or the id of the boundary whose mutation is applied but whose rewrite is not
+          pending,   \* ids whose mutation is applied but whose rewrite is not (one writer call; several header keywords at most)
           phase      \* "run" | "returned" | "failed" | "dead"
 
 vars == <<cfg, done, mem, disk, pending, phase>>
@@ -81,9 +81,9 @@ Absent     == [present |-> FALSE, cols |-> <<>>, meta |-> {}]
 OnDisk(t)  == [present |-> TRUE, cols |-> t.cols, meta |-> t.meta]
 
 Init == /\ cfg \in Configs
-        /\ done = {} /\ mem = EmptyTable /\ disk = Absent /\ pending = "" /\ phase = "run"
+        /\ done = {} /\ mem = EmptyTable /\ disk = Absent /\ pending = {} /\ phase = "run"
 
-CanDo(id) == /\ phase = "run" /\ pending = ""
+CanDo(id) == /\ phase = "run" /\ pending = {}
              /\ id \in BIds /\ Gate(cfg, id) /\ id \notin done
              /\ Deps[id] \subseteq done
 
@@ -91,37 +91,44 @@ CanDo(id) == /\ phase = "run" /\ pending = ""
 MutateEffect(id) ==
     /\ mem' = IF Kind(id) = "cols" THEN [mem EXCEPT !.cols = @ \o Names(cfg, id)]
                                    ELSE [mem EXCEPT !.meta = @ \cup {id}]
-    /\ pending' = id
+    /\ pending' = pending \cup {id}
     /\ UNCHANGED <<cfg, done, disk, phase>>
 Mutate(id) == CanDo(id) /\ MutateEffect(id)
 
+(* one writer call may set several header keywords of a channel before it rewrites the file (a batched header write) *)
+SameChannel(a, b) == (a \in OptMetaKeys /\ b \in OptMetaKeys) \/ (a \in RadMetaKeys /\ b \in RadMetaKeys)
+MutateMore(id) == /\ phase = "run" /\ pending # {} /\ Kind(id) = "meta"
+                  /\ \A q \in pending : SameChannel(q, id)
+                  /\ id \notin done \cup pending /\ Gate(cfg, id) /\ Deps[id] \subseteq done
+                  /\ MutateEffect(id)
+
 (* staged writer, second half: rewrite the whole file iff writeStages *)
-Rewrite == /\ phase = "run" /\ pending # ""
+Rewrite == /\ phase = "run" /\ pending # {}
            /\ disk' = IF cfg.writeStages THEN OnDisk(mem) ELSE disk
-           /\ done' = done \cup {pending}
-           /\ pending' = ""
+           /\ done' = done \cup pending
+           /\ pending' = {}
            /\ UNCHANGED <<cfg, mem, phase>>
 
 (* a stage raises before its (next) mutation; the exception leaves compute() *)
-StageFails == /\ phase = "run" /\ pending = ""
+StageFails == /\ phase = "run" /\ pending = {}
               /\ \E id \in BIds : CanDo(id)
               /\ phase' = "failed" /\ UNCHANGED <<cfg, done, mem, disk, pending>>
 
-(* the process dies between two boundaries *)
-Dies == /\ phase = "run" /\ pending = ""
+(* the process dies: between two boundaries or inside a writer call *)
+Dies == /\ phase = "run"
         /\ phase' = "dead" /\ UNCHANGED <<cfg, done, mem, disk, pending>>
 
 AllDone == Gated(cfg) \subseteq done
-Return == /\ phase = "run" /\ pending = "" /\ AllDone
+Return == /\ phase = "run" /\ pending = {} /\ AllDone
           /\ phase' = "returned" /\ UNCHANGED <<cfg, done, mem, disk, pending>>
 
-Next == \/ \E id \in BIds : Mutate(id)
+Next == \/ \E id \in BIds : Mutate(id) \/ MutateMore(id)
         \/ Rewrite \/ StageFails \/ Dies \/ Return
 
 Spec == Init /\ [][Next]_vars /\ WF_vars(Next)
 
 (* ---- properties -------------------------------------------------------------- *)
-AtBoundary == pending = ""
+AtBoundary == pending = {}
 
 TypeOK == /\ phase \in {"run", "returned", "failed", "dead"}
           /\ done \subseteq BIds
@@ -131,6 +138,10 @@ TypeOK == /\ phase \in {"run", "returned", "failed", "dead"}
 (* exactly the table of all boundaries completed so far                                          *)
 DiskIsMemAtBoundary ==
     (cfg.writeStages /\ AtBoundary /\ done # {}) => disk = OnDisk(mem)
+
+(* C17, at every moment (also inside a writer call and after death there): the file is the table as of the last COMPLETED boundary *)
+Committed == [cols |-> SelectSeq(mem.cols, LAMBDA c : \A q \in pending : c \notin Range(Names(cfg, q))), meta |-> mem.meta \ pending]
+DiskIsCommitted == (cfg.writeStages /\ done # {}) => disk = OnDisk(Committed)
 
 (* C17: the file is always a prefix of the table in memory (and so of the final table) *)
 DiskIsPrefix == disk.present => IsPrefix(disk.cols, mem.cols) /\ disk.meta \subseteq mem.meta
